@@ -14,12 +14,15 @@ IMPORTS = ("From Coq Require Import PrimFloat.\n"
 SHARD = 18
 LEVEL_TEXT = ("Coq theorems: over R, Haldane and Kosambi map 0 to 0, [0,inf) into [0,1/2), are strictly increasing, tend to 1/2 "
               "and are undone by their inverses (both directions); over an exact-rational executable model of both genetic-map classes: "
-              "the constructor's stable sort is a sorted permutation and its result does not depend on the row order (distinct keys), "
-              "pairwise distances are symmetric, zero on the diagonal, additive for ordered markers, infinite between chromosomes, "
+              "the constructor's stable sort is a sorted permutation and its result does not depend on the row order (no duplicated position), "
+              "the spline does not depend on the array order either (auto_group=False), "
+              "pairwise distances are symmetric, zero on the diagonal, non-negative, additive for ordered markers, infinite between chromosomes, "
               "sequential distances agree with the pairwise ones and are infinite at chromosome starts, interpolation is exact at "
-              "the map's own markers, equals the chord between the flanking markers, is order-preserving for congruent maps, is "
+              "the map's own markers (also proved bit-for-bit in binary64 through Flocq for all finite positions and knot gaps <= 2^53), "
+              "equals the chord between the flanking markers, continues the end chords outside, is order-preserving for congruent maps, is "
               "missing (NaN) off the map, and crossover probabilities are the map function of consecutive interpolated gaps with "
-              "1/2 at chromosome starts. The model is tied to the code by evaluating it inside Coq on generated maps/queries "
+              "1/2 at chromosome starts; two refutations (interp_gmap copies stale group metadata; remove_discrepancies keeps the old spline) "
+              "with their guarded versions. The model is tied to the code by evaluating it inside Coq on generated maps/queries "
               "against the implementation's outputs: exact rationals on dyadic grids, bit-for-bit binary64 (PrimFloat model of "
               "scipy's interp1d arithmetic) everywhere, and Coq-Interval enclosures (proved sound) within 2^-45 for map-function values")
 LEVEL_NOTE = ("trusted: Coq kernel + vm_compute, PrimFloat primitives, classical reals, Coq-Interval's verified interval arithmetic; "
@@ -32,7 +35,9 @@ RULE = ("case kinds: mapfn (a vector of distances incl. 0, denormals, grid point
         "values next to 1/2, for one map function), gmap (class Standard|Extended, units M|cM, 1-4 chromosomes with 2-6 markers each, "
         "rows shuffled + a second shuffle, congruent or not, ties in genetic position, dyadic 'grid' maps with power-of-two physical gaps "
         "or generic maps, query markers on/off the map, at knots, between knots and outside the range, python slices for the distance "
-        "methods, genotype matrix unphased|phased with Haldane|Kosambi), igmap (interp_gmap result re-used as a map); non-trivial = "
+        "methods, genotype matrix unphased|phased with Haldane|Kosambi; every map is also built from a second shuffle and with auto_group=False), "
+        "igmap (interp_gmap result re-used as a map), rmdisc (non-congruent grid map after remove_discrepancies, queried at and between its "
+        "remaining markers, before and after build_spline); non-trivial = "
         "gmap with >= 2 chromosomes, a query marker strictly between two knots, one outside the knot range and one on an absent "
         "chromosome, or mapfn with >= 6 finite distances; distinct by SHA-256 of the case")
 TRUSTED = ["scipy interp1d(kind='linear', fill_value='extrapolate') evaluates _call_linear as modelled (compared bit for bit on every case)",
@@ -154,6 +159,22 @@ def _igmap_case(rng):
     return {"kind": "igmap", "cls": c["cls"], "rows": c["rows"], "query": c["query"], "stop": c.get("stop"),
             "units": "M"}
 
+def _rmdisc_case(rng):
+    """a non-congruent grid map; after remove_discrepancies the map is queried at and between its remaining markers"""
+    while True:
+        c = _gmap_case(rng, grid=True)
+        rows = sorted([(r[0], r[1], xf(r[2])) for r in c["rows"]])
+        keep = [r for i, r in enumerate(rows) if i == 0 or rows[i - 1][0] != r[0] or rows[i - 1][2] <= r[2]]
+        cnt = {}
+        for r in keep: cnt[r[0]] = cnt.get(r[0], 0) + 1
+        if len(keep) < len(rows) and all(v >= 2 for v in cnt.values()): break      # something is removed, >= 2 markers stay
+    q = []
+    for a, b in zip(keep, keep[1:]):
+        if a[0] == b[0]:
+            q.append([a[0], a[1]]); q.append([a[0], (a[1] + b[1]) // 2]); q.append([b[0], b[1]])
+    return {"kind": "rmdisc", "cls": c["cls"], "units": "M", "grid": True, "rows": c["rows"], "query": q[:12],
+            "stop": c.get("stop"), "name": c.get("name"), "fncode": c.get("fncode")}
+
 def gen_cases(rng, tier):
     cases = []
     nm, ng, ni = (30, 170, 6) if tier == "quick" else (400, 3000, 40)
@@ -168,6 +189,7 @@ def gen_cases(rng, tier):
             cases.append(_gmap_case(rng, grid, cls))
     for _ in range(ng): cases.append(_gmap_case(rng))
     for _ in range(ni): cases.append(_igmap_case(rng))
+    for _ in range(ni): cases.append(_rmdisc_case(rng))
     return cases
 
 # ----------------------------------------------------------------------------------------------- implementation driver
@@ -204,6 +226,7 @@ def _sub(l, idx): return None if l is None else [l[i] for i in idx]
 def run_impl(case):
     if case["kind"] == "mapfn": return _run_mapfn(case)
     if case["kind"] == "igmap": return _run_igmap(case)
+    if case["kind"] == "rmdisc": return _run_rmdisc(case)
     return _run_gmap(case)
 
 def _fnobj(name):
@@ -240,6 +263,9 @@ def _run_gmap(case):
         out["q_gen"] = fxl(g.interp_genpos(qc, qp))
         out["q_gen2"] = fxl(g2.interp_genpos(qc, qp))
         out["warned"] = any(issubclass(x.category, RuntimeWarning) and "congruent" in str(x.message) for x in w)
+        out["copy_q_gen"] = [fxl(copy.copy(g).interp_genpos(qc, qp)), fxl(copy.deepcopy(g).interp_genpos(qc, qp)), fxl(g.copy().interp_genpos(qc, qp)),
+                             fxl(g.deepcopy().interp_genpos(qc, qp))]
+        out["copy_dump_same"] = bool(_dump(copy.deepcopy(g), cls) == out["map"] and _dump(copy.copy(g), cls) == out["map"])
     with warnings.catch_warnings():
         warnings.simplefilter("ignore")
         # the same rows with auto_group=False: arrays stay as supplied, the spline is built from unsorted arrays
@@ -303,6 +329,24 @@ def _run_igmap(case):
             out["re_congruent"] = {"exc": type(e).__name__, "msg": str(e)[:200]}
     return out
 
+def _run_rmdisc(case):
+    cls = case["cls"]
+    g, _ = _mk_map(cls, case["rows"], case["units"], case.get("stop"), case.get("name"), case.get("fncode"))
+    qc = numpy.array([q[0] for q in case["query"]], dtype="int64"); qp = numpy.array([q[1] for q in case["query"]], dtype="int64")
+    out = {}
+    g.remove_discrepancies()
+    out["map"] = _dump(g, cls)
+    with warnings.catch_warnings(record=True) as w:
+        warnings.simplefilter("always")
+        out["is_congruent"] = bool(g.is_congruent())
+        out["stale"] = fxl(g.interp_genpos(qc, qp))
+        out["warned"] = any("congruent" in str(x.message) for x in w)
+    with warnings.catch_warnings():
+        warnings.simplefilter("ignore")
+        g.build_spline()
+        out["rebuilt"] = fxl(g.interp_genpos(qc, qp))
+    return out
+
 # ----------------------------------------------------------------------------------------------- Coq emission
 def _ext(s):
     if s == "nan": return "NaN"
@@ -341,6 +385,10 @@ def emit_case(case, out):
     if "exc" in out: return "false"
     if case["kind"] == "igmap": return None
     if '"-inf"' in __import__("json").dumps(out): return None          # exp() overflow on absurd negative gaps: predicate only
+    if case["kind"] == "rmdisc":
+        t1, _f = _dump_term(out["map"], case)
+        return "(check_rmdisc false %s %s %s %s %s %s)" % (_raw(case), _pairs(case["query"]), t1, E.b(out["is_congruent"]),
+                                                       E.lst(out["stale"], _ext), E.lst(out["rebuilt"], _ext))
     if case["kind"] == "mapfn":
         k = _kind(case["fn"])
         return "(check_mapfn %s %s %s %s %s %s %s\n   && fl_eqb (map cM2d_f %s) %s && extll_eqb [%s] %s)" % (
@@ -496,6 +544,7 @@ def _pred_gmap(case, out):
     if out["map2"] != out["map"]: bad.append("map depends on the order in which the rows were supplied")
     if out["q_gen2"] != out["q_gen"]: bad.append("interpolation depends on the order in which the rows were supplied")
     if not out["inputs_unchanged"]: bad.append("constructor mutated its input arrays")
+    if any(v != out["q_gen"] for v in out["copy_q_gen"]) or not out["copy_dump_same"]: bad.append("a copy / deep copy of the map stores or interpolates differently")
     nb = out["ng_before"]
     if list(zip(nb["chr"], nb["phy"], [xf(v) for v in nb["gen"]])) != [t[:3] for t in rows] or nb["grouped"]:
         bad.append("auto_group=False: the constructor reordered or grouped the arrays")
@@ -620,11 +669,32 @@ def _pred_igmap(case, out):
         if not ok: bad.append("interp_gmap result: claims to be grouped but its group metadata is that of the source map")
     return bad
 
+def _pred_rmdisc(case, out):
+    """after remove_discrepancies: if the reduced map reports itself congruent, interpolation must follow the chords of the
+    reduced map and preserve order; after build_spline() it must do so in any case"""
+    bad = []
+    m = out["map"]
+    knots = {}
+    for c, x, g in zip(m["chr"], m["phy"], m["gen"]): knots.setdefault(c, []).append((x, Fraction(xf(g))))
+    def chk(label, vals, prefix):
+        ok = True
+        for (c, x), v in zip(case["query"], vals):
+            v = xf(v)
+            if c not in knots or len(knots[c]) < 2: continue
+            want = _interp_exact(knots[c], x)
+            if math.isnan(v) or abs(Fraction(v) - want) > Fraction(1, 2 ** 36) * (1 + abs(want)):
+                bad.append("%s %s: position of (%d,%d) = %r, the flanking markers of the reduced map give %r" % (prefix, label, c, x, v, float(want))); ok = False; break
+        return ok
+    if out["is_congruent"] and not out["warned"]:
+        chk("interp_genpos after remove_discrepancies (map reports congruent, no warning)", out["stale"], "stale spline:")
+    chk("interp_genpos after remove_discrepancies + build_spline", out["rebuilt"], "rebuilt spline:")
+    return bad
+
 def pred(case, out):
     """the property, stated directly on the implementation's outputs (independent of the Coq model)"""
     if "exc" in out:
         return ["implementation raised %s: %s" % (out["exc"], out["msg"])]
-    bad = {"mapfn": _pred_mapfn, "gmap": _pred_gmap, "igmap": _pred_igmap}[case["kind"]](case, out)
+    bad = {"mapfn": _pred_mapfn, "gmap": _pred_gmap, "igmap": _pred_igmap, "rmdisc": _pred_rmdisc}[case["kind"]](case, out)
     seen = []
     for b in bad:
         if b not in seen: seen.append(b)
@@ -643,7 +713,7 @@ def nontrivial(case, out):
 
 def describe(case, out):
     if case["kind"] == "mapfn": return {"kind": "mapfn", "fn": case["fn"], "npoints": len(case["d"]) + len(case["r"]), "raised": "exc" in out}
-    if case["kind"] == "igmap": return {"kind": "igmap", "cls": case["cls"], "raised": "exc" in out}
+    if case["kind"] in ("igmap", "rmdisc"): return {"kind": case["kind"], "cls": case["cls"], "raised": "exc" in out}
     knots = set(r[0] for r in case["rows"])
     return {"kind": "gmap", "cls": case["cls"], "units": case["units"], "grid": case["grid"], "nchr": len(knots),
             "nmarkers": len(case["rows"]), "nquery": len(case["query"]), "fn": case["fn"], "gmat": case["gmat"],
@@ -653,6 +723,8 @@ def describe(case, out):
 def classify(case, out, clauses):
     if case["kind"] == "igmap" and clauses and all(c.startswith("interp_gmap result:") for c in clauses):
         return "C11-interp-gmap-stale-groups"
+    if case["kind"] == "rmdisc" and clauses and all(c.startswith("stale spline:") for c in clauses):
+        return "C11-stale-spline-after-remove-discrepancies"
     return None
 
 def shrink(case, fails):
